@@ -395,25 +395,49 @@ def parse_model(d, S):
     return m
 
 
-def model_value_as_impl(mv, nV, nE):
-    """canonical form of a model value comparable with observe() modulo what the property leaves free"""
-    if mv[0] == "P":
-        return [[list(vs), list(es), list(ds), list(nb), len(es)] for (vs, es, ds), nb in zip(mv[1], mv[2])]
-    if mv[0] == "N":
-        return mv[1]
-    if mv[0] == "E":
-        return [str((nE, 2))] + [list(r) for r in mv[1]]
-    if mv[0] == "V":
-        return [sorted(x for x in r if x is not None) for r in mv[1]]
-    return {"raised": mv[0]}
+def canon_plaquettes(pl):
+    """plaquettes [(vs, es, ds, nb, ...)] -> dict canonical dart cycle -> (index, rotated (vs, es, ds, nb)).
+    The property fixes neither the order of the plaquette list nor the start dart of a plaquette (C01: a set of
+    cyclic walks), so K compares the tables after renaming plaquette indices along the matching of cycles."""
+    out = {}
+    for i, p in enumerate(pl):
+        vs, es, ds, nb = list(p[0]), list(p[1]), list(p[2]), list(p[3])
+        darts = list(zip(es, ds))
+        r = darts.index(min(darts)) if darts else 0
+        rot = lambda x: x[r:] + x[:r]
+        out.setdefault(tuple(rot(darts)), []).append((i, (rot(vs), rot(es), rot(ds), rot(nb))))
+    return out
 
 
-def impl_value_canon(op, v):
-    if isinstance(v, dict):
-        return {"raised": "RAISE"}
-    if op == 3:
-        return [sorted(x for x in r if x is not None) for r in v[1:]]
-    return v
+def compare_plaquette_values(mp, vals, nV, nE):
+    """model pure values (P, N, E, V) against the implementation's four attribute values, modulo a renaming
+    of plaquette indices, the start dart of each plaquette, and order/width of a vertex row"""
+    diffs = []
+    if any(isinstance(v, dict) for v in vals) or mp[0][0] != "P":
+        if not (any(isinstance(v, dict) for v in vals) and mp[0][0] != "P"):
+            diffs.append((OPS[0], "one side raised, the other did not"))
+        return diffs
+    mpl = [(vs, es, ds, nb) for (vs, es, ds), nb in zip(mp[0][1], mp[0][2])]
+    cm, ci = canon_plaquettes(mpl), canon_plaquettes(vals[0])
+    if set(cm) != set(ci) or any(len(v) != 1 for v in cm.values()) or any(len(v) != 1 for v in ci.values()):
+        diffs.append((OPS[0], f"plaquette sets differ: model {len(mpl)} impl {len(vals[0])}"))
+        return diffs
+    sig = {ci[k][0][0]: cm[k][0][0] for k in ci}           # impl index -> model index
+    ren = lambda x: None if x is None else sig.get(x, ("?", x))
+    for k in ci:
+        (i, (vs, es, ds, nb)), (j, (mvs, mes, mds, mnb)) = ci[k][0], cm[k][0]
+        if vs != mvs:
+            diffs.append((OPS[0], f"plaquette {i}: vertices differ"))
+        if [ren(x) for x in nb] != mnb:
+            diffs.append(("plaquette.adjacent_plaquettes", f"impl plaquette {i}: {nb} model plaquette {j}: {mnb}"))
+    if vals[1] != mp[1][1]:
+        diffs.append((OPS[1], f"model {mp[1][1]} impl {vals[1]}"))
+    if vals[2][0] != str((nE, 2)) or [[ren(a), ren(b)] for a, b in vals[2][1:]] != [list(r) for r in mp[2][1]]:
+        diffs.append((OPS[2], ""))
+    key = lambda x: (0, x) if isinstance(x, int) else (1, str(x))
+    if [sorted((ren(x) for x in r if x is not None), key=key) for r in vals[3][1:]] != [sorted(x for x in r if x is not None) for r in mp[3][1]]:
+        diffs.append((OPS[3], ""))
+    return diffs, sig
 
 
 def compare_model(m, S, vals, R, tolv, beta_ok):
@@ -433,12 +457,12 @@ def compare_model(m, S, vals, R, tolv, beta_ok):
     if "adjm" in m:
         if m["adjm"] != {(int(i), int(j)) for i, j in zip(*np.nonzero(R["adjm"]))}:
             diffs.append(("adjacency_matrix", ""))
-    for op in range(4):
-        if isinstance(vals[op], dict):
-            diffs.append((OPS[op], "implementation raised"))
-        elif model_value_as_impl(m["pure"][op], nV, nE) != impl_value_canon(op, vals[op]):
-            diffs.append((OPS[op], ""))
-    if [(vs, es) for vs, es in m["q_vn"]] != [(vs, es) for vs, es in R["q_vn"]]:
+    r = compare_plaquette_values(m["pure"], vals, nV, nE)
+    sig = None
+    if isinstance(r, tuple):
+        r, sig = r
+    diffs += r
+    if [sorted(zip(vs, es)) for vs, es in m["q_vn"]] != [sorted(zip(vs, es)) for vs, es in R["q_vn"]]:
         diffs.append(("vertex_neighbours", ""))
     if [sorted(r) for r in m["q_en"]] != [sorted(r) for r in R["q_en"]]:
         diffs.append(("query edge_neighbours", ""))
@@ -450,9 +474,14 @@ def compare_model(m, S, vals, R, tolv, beta_ok):
         if a.shape != R["q_ev"][v].shape or (a.size and np.max(np.abs(a - R["q_ev"][v])) > tolv):
             diffs.append(("get_edge_vectors", f"vertex {v}"))
             break
-    if m["q_ap"] is not None and not any(d[0] == OPS[0] for d in diffs):
-        if [sorted(zip(*x)) if x and x[0] else [] for x in m["q_ap"]] != [sorted(zip(*x)) if x[0] else [] for x in R["q_ap"]]:
-            diffs.append(("query adjacent_plaquettes", ""))
+    if m["q_ap"] is not None and sig is not None and not any(d[0] == OPS[0] for d in diffs):
+        inv_sig = {v: k for k, v in sig.items()}
+        mq = {i: sorted(zip(*x)) if x and x[0] else [] for i, x in enumerate(m["q_ap"])}
+        for i, x in enumerate(R["q_ap"]):
+            got = sorted((sig.get(a, ("?", a)), e) for a, e in zip(*x)) if x[0] else []
+            if got != mq.get(sig[i]):
+                diffs.append(("query adjacent_plaquettes", f"impl plaquette {i}"))
+                break
     return diffs
 
 
